@@ -71,7 +71,9 @@ def closeAll (f : Fss) : List Nat → Fss × List Call
     let r := closeAll m.1 is
     (r.1, m.2.2 :: r.2)
 
-/-- `MountFS.close()` -/
+/-- `MountFS.close()`: the closed flag is set first (since bc21264), then with `auto_close` every
+mounted member is closed in table order and the table emptied, then `default_fs` is closed; a
+reference member's `close` cannot fail, so the order of the flag is not observable here -/
 def close (s : MState) : MState × Out × List Call :=
   let r := if s.autoClose then closeAll s.fs (s.mounts.map (·.2)) else (s.fs, [])
   let mounts := if s.autoClose then [] else s.mounts
@@ -147,7 +149,8 @@ def scanRouted (s : MState) (p : Str) (firstOnly : Bool) : MState × Out × List
     let m := memberCall s.fs i .scandir r (.listdir r)
     scanAfter { s with fs := m.1 } p firstOnly (decide (i = 0 ∧ s.mounts ≠ [])) m.2.1 m.2.2
 
-/-- every method `MountFS` defines.  All are `check(); _delegate; forward`, except:
+/-- every method `MountFS` defines.  All are `check(); _delegate; forward` (since 8088539 also
+`download` and `writetext`, which are not among the primitives), except:
 `getinfo` and `scandir` (above); `openbin` validates the mode first; `removedir` normalises,
 refuses the root, and delegates the *normalised* path; `makedirs` is not a MountFS method
 (the inherited default is the program `baseMakedirs`), so as a primitive it is `Unsupported`. -/
